@@ -55,9 +55,15 @@ def c01_jobs(tier):
             for el in ['TrM', 'TrC', 'TrX']:
                 if elem_supports(el, op):
                     for (n, cap) in [(2, 2), (2, 4)]: js.append(ops_job(op, el, n, cap))
+    # element type bool from byte-sized integers (bulk-copy candidates) and ranges whose reference type is constructible but not assignable to value_type
+    from .jobs import conv_job, rng_job
+    for (s_, d_) in [('unsigned char', 'bool'), ('char', 'bool')]:
+        js.append(conv_job(s_, d_, via=1, part=1)); js.append(conv_job(s_, d_, via=0, part=3))
+    for (op, n, cap) in [('assign_range', 0, 0), ('assign_range', 2, 2), ('insert_range', 2, 2), ('append_range', 0, 0), ('ctor_range', 0, 0)]:
+        js.append(rng_job(op, 'Tr', n, cap, itk=1, extra_defs={'VF_SRCINT': 1}, tag='-srcint'))
     return [j for j in js if j is not None]
 
-REG['C01'] = Spec('C01', c01_jobs, memsafe=True, explanation=
+REG['C01'] = Spec('C01', c01_jobs, tags=['C01', 'C13'], memsafe=True, compile_failure_is_violation=True, explanation=
     'Per member operation one harness: arbitrary valid pre-state (inline or heap, any size <= capacity, any element values) -> the operation with symbolic '
     'arguments -> size(), every element, returned iterator position / reference / at() exception compared with a sequence model carrying std::vector\'s specified semantics. '
     'Because the post-state again satisfies the invariant the per-operation result extends to call histories by induction (up to the capacity bound).')
@@ -188,6 +194,12 @@ def c10_jobs(tier):
         for op in ops:
             for (n, cap) in cells(tier):
                 js.append(ops_job(op, 'int', n, cap, maxcnt=3)); js.append(ops_job(op, 'Tr', n, cap, maxcnt=3))
+    from .jobs import rng_job
+    for (op, n, cap) in [('assign_range', 0, 0), ('assign_range', 2, 2), ('append_range', 0, 0), ('append_range', 2, 2)]:
+        for itk in (1, 2, 3):
+            js.append(rng_job(op, 'int', n, cap, itk=itk))
+            if itk != 3: js.append(rng_job(op, 'Tr', n, cap, itk=itk, extra_defs={'VF_SRCINT': 1}, tag='-srcint'))
+    js.append(rng_job('insert_range', 'int', 0, 0, itk=1)); js.append(rng_job('insert_range', 'int', 2, 2, itk=2))
     return _nn(js)
 REG['C10'] = Spec('C10', c10_jobs, tags=['C10'], explanation=
     'From an arbitrary state: when the model result fits capacity() observed before the call, capacity(), data() and the allocate counter are unchanged and (instrumented type) the per-object touch counter of every '
